@@ -1049,6 +1049,10 @@ def run_native_stream(ctx, h, m, elk, cases, tag, plain_n):
             if o["kind"] != "run":
                 st["mismatches"] += 1
                 key = "%s-%s:%s" % (name, o["kind"].replace("_", "-"), panic_key(o) if o["kind"] != "timeout" else "timeout")
+                if name == "vm" and ("neither bytecode nor native" in o["stderr"] or "vm.(*Thread).opCallMethod" in o["stderr"]):
+                    # a corrupted call site of the bytecode VM reads an arbitrary value as the method: the Go-level
+                    # manifestation (panic message, nil dereference) varies from run to run; one canonical class
+                    key = "vm-crash:invalid-call-site"
                 ctx.fail(key, "%s back end died (%s) on a program the reference interpreter runs to %s; stderr: %s" % (
                     name, o["kind"], "an uncaught %s" % mo["err"][0] if mo["err"] else "completion",
                     o["stderr"].strip().splitlines()[0][:200] if o["stderr"].strip() else ""),
@@ -1100,16 +1104,25 @@ def run(ctx):
         "arithmetic, comparisons, Bool connectives, String concatenation, inspect, locals, if/while/return, method calls incl. "
         "recursion, println) is fuel-independent once it terminates; obs_equiv (same stdout lines, same uncaught-error class + "
         "message, same zero/non-zero status) is an equivalence, so two back ends that each agree with Sref on p agree with each "
-        "other. NOT proved: anything about compiler/go_compiler.go (17k lines) or the bytecode compiler/VM - they are only "
-        "compared with Sref and with each other on generated programs of this fragment (c09.native); constructs outside the "
-        "fragment (collections, closures, classes, floats, pattern matching, do/catch, std calls beyond println/inspect) are "
-        "not exercised at all. Programs the back end rejects (checker diagnostics or an 'invalid expression node' panic of the "
-        "Go compiler, e.g. `throw`) are counted and skipped.")
+        "other. (3) Second generation of the fragment: Sref also covers user classes with single inheritance and method "
+        "overriding, objects with one Int field, sends dispatched on the receiver's RUNTIME class, list literals, for-in loops, "
+        "Symbol/Char/nil values and dynamic inspect; proved: an override always wins, a class without the method behaves like "
+        "its superclass (well-formed class tables), a send runs exactly the method selected for the runtime class and Sref keeps "
+        "no call-site state (C09_dispatch_own, C09_dispatch_inherited, C09_send_by_runtime_class). NOT proved: anything about "
+        "compiler/go_compiler.go (17k lines), the bytecode compiler/VM or the native call path (Thread.CallMethodByNameWithCache, "
+        "vm.LookupMethodInCache: the 3-entry inline cache of dynamically dispatched calls in generated Go is NOT modelled) - "
+        "they are only compared with Sref and with each other on generated programs of this fragment (c09.native), where "
+        "heterogeneous lists with runs of equal classes drive single call sites through mono-, poly- and megamorphic receiver "
+        "histories; constructs outside the fragment (hash maps, closures, mutable fields, floats, pattern matching, do/catch, "
+        "optional parameters, modules/mixins, std calls beyond println/inspect) are not exercised at all. Programs the back end "
+        "rejects (checker diagnostics or an 'invalid expression node' panic of the Go compiler, e.g. `throw`) are counted "
+        "and skipped.")
     ctx.trusted_base += [
         "math/big modelled as Z (Add/Sub/Mul/Quo/Rem/QuoRem/Cmp/IsInt64/Int64) - validated by c09.helpers, not proved",
         "Python generator/printer of the program fragment (checks/C09.py), s-expression parser of ocaml/C09/main.ml",
-        "batched native build: each generated file is linked as package p<i> with `package main`/`func main()` renamed (two "
-        "tokens) so that one link serves many programs; a sample is also built unmodified and must behave identically",
+        "batched native build: each generated file is linked as package <id> with `package main`/`func main()` renamed (two "
+        "tokens) so that ONE go build / one link serves all programs of a run (dispatch on argv[1]); one small program is "
+        "also built unmodified (own module, main.go exactly as generated) and must behave identically",
         "Go toolchain (go build -tags native), the elk runtime packages linked into the native binary",
         "uncaught-error report parsed from stderr with the pattern `Error! Uncaught error <Class>: <message>`",
     ]
@@ -1130,7 +1143,7 @@ def run(ctx):
     # ---- c09.native
     elk = vlib.build_elk()
     rng = ctx.rng(NATIVE)
-    nprog = ctx.n(NQUICK, 600)
+    nprog = ctx.n(NQUICK, 450)
     corpus = load_corpus(os.path.join(vlib.ROOT, "corpus", "C09.native.txt"))
     cases, feats = [], {}
     for i in range(nprog):
